@@ -26,6 +26,8 @@ pub trait Handler {
     /// (cancellation, step budget) or block (cooperative scheduling).
     fn on_event(&self) {}
     fn probe(&self, _site: Site) {}
+    /// Called when `subdivide` has left its loop, with the number of events still queued.
+    fn after_sweep(&self, _remaining: usize) {}
     fn disable_shortcut(&self) -> bool {
         false
     }
@@ -52,6 +54,12 @@ fn current() -> Option<Rc<dyn Handler>> {
 pub fn on_event() {
     if let Some(h) = current() {
         h.on_event()
+    }
+}
+
+pub fn after_sweep(remaining: usize) {
+    if let Some(h) = current() {
+        h.after_sweep(remaining)
     }
 }
 
